@@ -332,6 +332,10 @@ func (rr RR) Bytes() []byte {
 	s.AddUint16LengthPrefixed(func(s *cryptobyte.Builder) {
 		switch data := rr.Data.(type) {
 		case net.IP:
+			// net.IP holds IPv4 addresses in 4 or 16 bytes.
+			if ip4 := data.To4(); rr.Type == 1 && ip4 != nil {
+				data = ip4
+			}
 			s.AddBytes([]byte(data))
 		case string:
 			if rr.Type == 2 || rr.Type == 5 || rr.Type == 12 { // NS, CNAME, PTR
@@ -371,6 +375,9 @@ func (rr RR) Bytes() []byte {
 				s.AddUint16(4)
 				s.AddUint16LengthPrefixed(func(s *cryptobyte.Builder) {
 					for _, ip := range data.IPv4Hint {
+						if ip4 := ip.To4(); ip4 != nil {
+							ip = ip4
+						}
 						s.AddBytes(ip)
 					}
 				})
